@@ -67,11 +67,11 @@ def _scripts(behs):
 def c30(c):
     quick = c.tier == 'quick'
     # 1. design: exhaustive, online decoder monitor, histories outside the VIEW
-    r = c.tlc_exhaustive('WsWriter', 'WsWriter', 'quick.cfg' if quick else 'thorough.cfg', workers=8, timeout=2400)
+    r = c.tlc_exhaustive('WsWriter', 'WsWriter', 'quick.cfg' if quick else 'thorough.cfg', workers=4, timeout=2400)
     c.log('TLC exhaustive: %d distinct / %d generated states, depth %d' % (r['distinct'], r['states'], r['depth']))
     if not quick:
         # the recursive decoder over the complete histories, small exhaustive configuration
-        r2 = c.tlc_exhaustive('WsWriter', 'WsWriter', 'hist.cfg', workers=8, timeout=2400)
+        r2 = c.tlc_exhaustive('WsWriter', 'WsWriter', 'hist.cfg', workers=4, timeout=2400)
         c.log('TLC exhaustive (history invariant): %d distinct states' % r2['distinct'])
     binp = c.go_build('wswriter')
     # 2. spec -> code: simulated scripts (every state checked against Roundtrip by TLC) replayed into a real Conn
